@@ -762,5 +762,194 @@ theorem argMinCol_dense (n : Nat) (fill : Int) (es : Row) (h : RowWF n es)
   rw [argMinMaxCol_neg, argminD_eq_argmaxD_neg, ← densifyRow_neg]
   exact argMaxCol_dense n (-fill) (negRow es) (negRow_wf h) (by rw [← excludedArg_neg]; exact hex)
 
+/-! ### unique: de-duplication, strictly sorted lists -/
+
+theorem mem_dedupAdj {α : Type} [DecidableEq α] : ∀ (l : List α) (a : α), a ∈ dedupAdj l ↔ a ∈ l
+  | [], a => by simp [dedupAdj]
+  | [b], a => by simp [dedupAdj]
+  | b :: c :: t, a => by
+    have ih := mem_dedupAdj (c :: t) a
+    rw [dedupAdj]
+    by_cases h : b = c
+    · simp only [h, if_true, ih, List.mem_cons]
+      constructor
+      · intro hh; right; exact hh
+      · rintro (hh | hh)
+        · left; exact hh
+        · exact hh
+    · simp only [h, if_false, List.mem_cons] at ih ⊢
+      rw [ih]
+
+theorem dedupAdj_sorted : ∀ (l : List Int), l.Pairwise (· ≤ ·) → (dedupAdj l).Pairwise (· < ·)
+  | [], _ => by simp [dedupAdj]
+  | [b], _ => by simp [dedupAdj]
+  | b :: c :: t, h => by
+    rw [List.pairwise_cons] at h
+    have ih := dedupAdj_sorted (c :: t) h.2
+    rw [dedupAdj]
+    by_cases hbc : b = c
+    · simp only [hbc, if_true]; exact ih
+    · simp only [hbc, if_false, List.pairwise_cons]
+      refine ⟨fun x hx => ?_, ih⟩
+      rw [mem_dedupAdj] at hx
+      have h1 := h.1 c List.mem_cons_self
+      rcases List.mem_cons.mp hx with rfl | hx
+      · omega
+      · have h2 := (List.pairwise_cons.mp h.2).1 x hx
+        omega
+
+/-- two strictly sorted lists with the same elements are equal -/
+theorem strict_sorted_ext {α : Type} {lt : α → α → Prop} (asymm : ∀ a b, lt a b → ¬ lt b a) :
+    ∀ {l₁ l₂ : List α}, l₁.Pairwise lt → l₂.Pairwise lt → (∀ a, a ∈ l₁ ↔ a ∈ l₂) → l₁ = l₂
+  | [], [], _, _, _ => rfl
+  | [], b :: l₂, _, _, hm => by have := (hm b).mpr List.mem_cons_self; cases this
+  | a :: l₁, [], _, _, hm => by have := (hm a).mp List.mem_cons_self; cases this
+  | a :: l₁, b :: l₂, h₁, h₂, hm => by
+    rw [List.pairwise_cons] at h₁ h₂
+    have irrefl : ∀ x, ¬ lt x x := fun x hx => asymm x x hx hx
+    have hab : a = b := by
+      rcases List.mem_cons.mp ((hm a).mp List.mem_cons_self) with h | h
+      · exact h
+      · rcases List.mem_cons.mp ((hm b).mpr List.mem_cons_self) with h' | h'
+        · exact h'.symm
+        · exact absurd (h₁.1 b h') (asymm _ _ (h₂.1 a h))
+    subst hab
+    congr 1
+    apply strict_sorted_ext asymm h₁.2 h₂.2
+    intro x
+    constructor
+    · intro hx
+      rcases List.mem_cons.mp ((hm x).mp (List.mem_cons_of_mem _ hx)) with h | h
+      · subst h; exact absurd (h₁.1 x hx) (irrefl x)
+      · exact h
+    · intro hx
+      rcases List.mem_cons.mp ((hm x).mpr (List.mem_cons_of_mem _ hx)) with h | h
+      · subst h; exact absurd (h₂.1 x hx) (irrefl x)
+      · exact h
+
+theorem int_strict_sorted_ext {l₁ l₂ : List Int} (h₁ : l₁.Pairwise (· < ·)) (h₂ : l₂.Pairwise (· < ·))
+    (hm : ∀ a, a ∈ l₁ ↔ a ∈ l₂) : l₁ = l₂ :=
+  strict_sorted_ext (lt := (· < ·)) (fun a b h => by omega) h₁ h₂ hm
+
+theorem mergeSort_asc_pairwise (l : List Int) : (l.mergeSort leAsc).Pairwise (· ≤ ·) :=
+  (List.pairwise_mergeSort leAsc_trans leAsc_total l).imp fun {a b} h => by simpa [leAsc] using h
+
+theorem uniqueValuesD_sorted (l : List Int) : (uniqueValuesD l).Pairwise (· < ·) :=
+  dedupAdj_sorted _ (mergeSort_asc_pairwise l)
+
+theorem mem_uniqueValuesD (l : List Int) (a : Int) : a ∈ uniqueValuesD l ↔ a ∈ l := by
+  unfold uniqueValuesD
+  rw [mem_dedupAdj, List.mem_mergeSort]
+
+theorem uniqueValuesD_nodup (l : List Int) : (uniqueValuesD l).Nodup :=
+  (uniqueValuesD_sorted l).imp fun {a b} h => by omega
+
+theorem uniqueValuesD_congr {l₁ l₂ : List Int} (h : ∀ a, a ∈ l₁ ↔ a ∈ l₂) : uniqueValuesD l₁ = uniqueValuesD l₂ :=
+  int_strict_sorted_ext (uniqueValuesD_sorted _) (uniqueValuesD_sorted _)
+    (fun a => by rw [mem_uniqueValuesD, mem_uniqueValuesD]; exact h a)
+
+/-! dense rows: members and multiplicities -/
+
+theorem mem_densifyRow {n : Nat} {es : Row} (fill : Int) (h : RowWF n es) (a : Int) :
+    a ∈ densifyRow n fill es ↔ a ∈ valsR es ∨ (a = fill ∧ es.length < n) := by
+  rw [(densifyRow_perm fill h).mem_iff, List.mem_append, List.mem_replicate]
+  constructor
+  · rintro (h1 | ⟨h1, h2⟩)
+    · left; exact h1
+    · right; exact ⟨h2, by omega⟩
+  · rintro (h1 | ⟨h1, h2⟩)
+    · left; exact h1
+    · right; exact ⟨by omega, h1⟩
+
+theorem count_densifyRow {n : Nat} {es : Row} (fill : Int) (h : RowWF n es) (a : Int) :
+    (densifyRow n fill es).count a = (valsR es).count a + if a = fill then n - es.length else 0 := by
+  rw [(densifyRow_perm fill h).count_eq, List.count_append, List.count_replicate]
+  congr 1
+  by_cases hf : a = fill
+  · simp [hf]
+  · have : ¬ fill = a := fun hh => hf hh.symm
+    simp [hf, this]
+
+/-- **core of `unique_values_spec`**: for a row that stores no fill value next to an unstored cell -/
+theorem uniqueValues_core {n : Nat} {es : Row} (fill : Int) (h : RowWF n es)
+    (hnf : es.length < n → fill ∉ valsR es) :
+    (if es.length < n then (fill :: uniqueValuesD (valsR es)).mergeSort leAsc else uniqueValuesD (valsR es))
+      = uniqueValuesD (densifyRow n fill es) := by
+  by_cases hk : es.length < n
+  · simp only [hk, if_true]
+    apply int_strict_sorted_ext _ (uniqueValuesD_sorted _)
+    · intro a
+      rw [List.mem_mergeSort, List.mem_cons, mem_uniqueValuesD, mem_uniqueValuesD, mem_densifyRow fill h]
+      constructor
+      · rintro (h1 | h1)
+        · right; exact ⟨h1, hk⟩
+        · left; exact h1
+      · rintro (h1 | ⟨h1, _⟩)
+        · right; exact h1
+        · left; exact h1
+    · have hnd : (fill :: uniqueValuesD (valsR es)).Nodup := by
+        rw [List.nodup_cons]
+        exact ⟨fun hm => hnf hk ((mem_uniqueValuesD _ _).mp hm), uniqueValuesD_nodup _⟩
+      have hnd' : ((fill :: uniqueValuesD (valsR es)).mergeSort leAsc).Nodup :=
+        (List.mergeSort_perm _ _).nodup_iff.mpr hnd
+      exact ((mergeSort_asc_pairwise _).and hnd').imp fun {a b} hab => by
+        have := hab.1; have := hab.2; omega
+  · simp only [hk, if_false]
+    apply uniqueValuesD_congr
+    intro a
+    rw [mem_densifyRow fill h]
+    constructor
+    · intro h1; left; exact h1
+    · rintro (h1 | ⟨_, h2⟩)
+      · exact h1
+      · exact absurd h2 hk
+
+/-! pruning -/
+
+theorem pruneRow_wf {n : Nat} {es : Row} (fill : Int) (h : RowWF n es) : RowWF n (pruneRow fill es) := by
+  refine ⟨?_, fun e he => h.2 e (List.mem_filter.mp he).1⟩
+  have : (keysR (pruneRow fill es)).Sublist (keysR es) := by
+    unfold keysR pruneRow
+    exact List.Sublist.map _ List.filter_sublist
+  exact h.1.sublist this
+
+theorem pruneRow_nofill (fill : Int) (es : Row) : fill ∉ valsR (pruneRow fill es) := by
+  intro hm
+  obtain ⟨e, he, hv⟩ := List.mem_map.mp hm
+  have := (List.mem_filter.mp he).2
+  simp [hv] at this
+
+theorem lookupRow_prune {es : Row} (fill : Int) (hnd : (keysR es).Nodup) (i : Nat) :
+    lookupRow (pruneRow fill es) fill i = lookupRow es fill i := by
+  have hnd' : (keysR (pruneRow fill es)).Nodup := by
+    have : (keysR (pruneRow fill es)).Sublist (keysR es) := by
+      unfold keysR pruneRow
+      exact List.Sublist.map _ List.filter_sublist
+    exact hnd.sublist this
+  rcases lookupRow_mem_or es fill i with ⟨hnk, hf⟩ | hm
+  · rw [hf]
+    apply lookupRow_of_not_mem
+    intro hm
+    obtain ⟨e, he, hk⟩ := List.mem_map.mp hm
+    exact hnk (List.mem_map.mpr ⟨e, (List.mem_filter.mp he).1, hk⟩)
+  · by_cases hv : lookupRow es fill i = fill
+    · rw [hv]
+      apply lookupRow_of_not_mem
+      intro hm'
+      obtain ⟨e, he, hk⟩ := List.mem_map.mp hm'
+      have hmem := (List.mem_filter.mp he).1
+      have hne := (List.mem_filter.mp he).2
+      have : lookupRow es fill i = e.2 := lookupRow_of_mem hnd (by rw [← hk]; exact hmem)
+      rw [hv] at this
+      simp [← this] at hne
+    · exact lookupRow_of_mem hnd' (List.mem_filter.mpr ⟨hm, by simpa using hv⟩)
+
+theorem densifyRow_prune {n : Nat} {es : Row} (fill : Int) (h : RowWF n es) :
+    densifyRow n fill (pruneRow fill es) = densifyRow n fill es := by
+  unfold densifyRow
+  apply List.map_congr_left
+  intro i _
+  exact lookupRow_prune fill h.nodup i
+
 end Search
 end SparseV
